@@ -114,7 +114,7 @@ Lemma handle_valid_cases s n from m :
   (In (n, m) (seen s) /\ handle_valid s n from m = (s, [])) \/
   (~ In (n, m) (seen s) /\
    handle_valid s n from m =
-     (Net ((n, m) :: seen s) (flight s) (pubq s ++ [Pend n from m]) (pc s) (chans s) (up s),
+     (Net ((n, m) :: seen s) (flight s) (pubq s ++ [Pend n from m]) (pc s) (chans s) (up s) (waiting s),
       Accepted n from m :: (if chan_b n (m_ch m) (chans s) then [Handed n m] else []))).
 Proof.
   unfold handle_valid. destruct (seen_b n m (seen s)) eqn:E.
@@ -163,9 +163,10 @@ Section Once.
   (* facts about one step *)
   Lemma step_once s a s1 os : nstep s a = (s1, os) -> once_facts s s1 os.
   Proof.
-    destruct a as [m0|u v l|k|u v l ch b|k ch b|u v l|u v l]; cbn [nstep].
+    destruct a as [m0|u v l|k|u v l ch b|k ch b|u v l|u v l|u v l]; cbn [nstep].
     - apply once_handle_valid.
-    - destruct (take_pkt u v l (flight s)) as [[p rest]|] eqn:T.
+    - destruct (up_b v u l (waiting s) && negb (up_b v u l (up s))); [intros H; inversion H; subst; apply once_silent; reflexivity|].
+      destruct (take_pkt u v l (flight s)) as [[p rest]|] eqn:T.
       + destruct (up_b v u l (up s) && chan_b v (m_ch (p_msg p)) (chans s)).
         * intros H. apply once_handle_valid in H. exact H.
         * intros H; inversion H; subst. apply once_silent. reflexivity.
@@ -179,7 +180,8 @@ Section Once.
       + intros H; inversion H; subst. apply once_silent. reflexivity.
     - destruct b; [destruct (pc_b u v l ch (pc s))|]; intros H; inversion H; subst; apply once_silent; reflexivity.
     - destruct b; [destruct (chan_b k ch (chans s))|]; intros H; inversion H; subst; apply once_silent; reflexivity.
-    - destruct (up_b u v l (up s)); intros H; inversion H; subst; apply once_silent; reflexivity.
+    - destruct (up_b u v l (waiting s)); intros H; inversion H; subst; apply once_silent; reflexivity.
+    - destruct (up_b u v l (waiting s)); intros H; inversion H; subst; apply once_silent; reflexivity.
     - intros H; inversion H; subst; apply once_silent; reflexivity.
   Qed.
 
@@ -243,9 +245,10 @@ Proof.
         * inversion H; inversion H'; subst. reflexivity.
       + intros u v l m0 H. apply InNew in H as [H|[H|H]]; try discriminate. apply I4 in H as [H1 [w [Hw Hn]]].
         split; [exact H1|]. exists w. split; [apply in_or_app; left; exact Hw|exact Hn]. }
-  destruct a as [m0|u v l|k|u v l ch b|k ch b|u v l|u v l]; cbn [nstep].
+  destruct a as [m0|u v l|k|u v l ch b|k ch b|u v l|u v l|u v l]; cbn [nstep].
   - apply HV; reflexivity.
-  - destruct (take_pkt u v l (flight s)) as [[p rest]|] eqn:T.
+  - destruct (up_b v u l (waiting s) && negb (up_b v u l (up s))); [intros H; inversion H; subst; exact (echo_silent _ _ _ eq_refl eq_refl I)|].
+    destruct (take_pkt u v l (flight s)) as [[p rest]|] eqn:T.
     + destruct (up_b v u l (up s) && chan_b v (m_ch (p_msg p)) (chans s)).
       * apply HV; reflexivity.
       * intros H; inversion H; subst. exact (echo_silent _ _ _ eq_refl eq_refl I).
@@ -270,7 +273,8 @@ Proof.
     + intros H; inversion H; subst. exact (echo_silent _ _ _ eq_refl eq_refl I).
   - destruct b; [destruct (pc_b u v l ch (pc s))|]; intros H; inversion H; subst; exact (echo_silent _ _ _ eq_refl eq_refl I).
   - destruct b; [destruct (chan_b k ch (chans s))|]; intros H; inversion H; subst; exact (echo_silent _ _ _ eq_refl eq_refl I).
-  - destruct (up_b u v l (up s)); intros H; inversion H; subst; exact (echo_silent _ _ _ eq_refl eq_refl I).
+  - destruct (up_b u v l (waiting s)); intros H; inversion H; subst; exact (echo_silent _ _ _ eq_refl eq_refl I).
+  - destruct (up_b u v l (waiting s)); intros H; inversion H; subst; exact (echo_silent _ _ _ eq_refl eq_refl I).
   - intros H; inversion H; subst; exact (echo_silent _ _ _ eq_refl eq_refl I).
 Qed.
 
@@ -362,11 +366,12 @@ Section Live.
   Proof.
     intros Ht I. pose proof I as [[K0a [K0b K0c]] [K1 [K2 [K3 [K4 K5]]]]].
     destruct Hann as [A0 [A1 A2]].
-    destruct a as [m0|u v l|k|u v l ch b|k ch b|u v l|u v l]; try discriminate; cbn [nstep].
+    destruct a as [m0|u v l|k|u v l ch b|k ch b|u v l|u v l|u v l]; try discriminate; cbn [nstep].
     - (* Publish *)
       intros H. apply (live_handle_valid s os s (m_origin m0) (m_origin m0) m0 s1 o1 I); auto.
       intros ->. right. reflexivity.
     - (* Recv *)
+      destruct (up_b v u l (waiting s) && negb (up_b v u l (up s))); [intros H; inversion H; subst; rewrite app_nil_r; exact I|].
       destruct (take_pkt u v l (flight s)) as [[p rest]|] eqn:T.
       2:{ intros H; inversion H; subst. rewrite app_nil_r. exact I. }
       apply take_pkt_spec in T as [Tu [Tv [Tl Tin]]].
@@ -377,7 +382,7 @@ Section Live.
       { intros u0 v0 l0 H. apply Tin in H as [H|H]; auto. right. subst p. cbn in *. auto. }
       destruct (up_b v u l (up s) && chan_b v (m_ch (p_msg p)) (chans s)) eqn:Ec.
       + intros H.
-        apply (live_handle_valid s os (Net (seen s) rest (pubq s) (pc s) (chans s) (up s)) v u (p_msg p) s1 o1 I); auto.
+        apply (live_handle_valid s os (Net (seen s) rest (pubq s) (pc s) (chans s) (up s) (waiting s)) v u (p_msg p) s1 o1 I); auto.
         * cbn [flight]. intros x Hx. apply Tin. auto.
         * cbn [flight]. intros u0 v0 l0 Hin. destruct (Hgone _ _ _ Hin) as [H'|[_ [-> [_ E]]]]; auto.
         * intros E. left. rewrite E in Hsrc. eapply K3; eauto.
